@@ -456,9 +456,9 @@ func main() {
 	srv.Register("c08/*/*", true, 3600, 1, 8192)
 	rng := common.NewRng(args.Seed, "C08")
 
-	nsc, nq := 150, 5
+	nsc, nq := 120, 5
 	if args.Tier == "thorough" {
-		nsc, nq = 1200, 6
+		nsc, nq = 700, 6
 	}
 	forks := make([]*common.Rng, nsc)
 	for i := range forks {
